@@ -140,7 +140,11 @@ func (x *ex) stepWrite(idx int, o Op) {
 		if b == 0 {
 			b = ^uint64(0)
 		}
-		buf.SetEntrySizeLimit(e, b)
+		if us, isUS := t.(*usTarget); isUS {
+			us.us.SetEntrySizeLimit(e, b) // through the union store
+		} else {
+			buf.SetEntrySizeLimit(e, b)
+		}
 		ref.elim, ref.blim = e, b
 		line(idx, "limits", []string{strconv.FormatUint(e, 16), strconv.FormatUint(b, 16)}, "ok")
 	case "flush", "fdone", "fwait":
